@@ -67,6 +67,31 @@ def _category(cat, ascii_only):
 
 
 ANYCHAR = None
+_SINGLE = {}
+
+
+def _single_char_set(state, item, flags):
+    try:
+        import re._compiler as sre_compile
+    except ImportError:  # pragma: no cover
+        import sre_compile
+    key = (repr(item), flags)
+    if key not in _SINGLE:
+        sub = sre_parse.SubPattern(state, [item])
+        pat = sre_compile.compile(sub, flags)
+        out, start, prev = [], None, None
+        for cp in range(0, MAXCHAR + 1):
+            if pat.fullmatch(chr(cp)):
+                if start is None:
+                    start = cp
+                prev = cp
+            elif start is not None:
+                out.append((start, prev))
+                start = None
+        if start is not None:
+            out.append((start, prev))
+        _SINGLE[key] = out
+    return _union(_range(a, b) for a, b in _SINGLE[key])
 
 
 def anychar():
@@ -84,8 +109,9 @@ def translate(pattern: str, flags: int = 0) -> Translated:
         raise Unsupported("bytes pattern")
     p = re.compile(pattern, flags)
     flags = p.flags
-    if flags & (re.IGNORECASE | re.MULTILINE | re.DOTALL | re.VERBOSE) and flags & (re.IGNORECASE | re.MULTILINE):
-        raise Unsupported("regex flags IGNORECASE/MULTILINE")
+    if flags & re.MULTILINE:
+        raise Unsupported("regex flag MULTILINE")
+    icase = bool(flags & re.IGNORECASE)
     ascii_only = bool(flags & re.ASCII)
     tree = sre_parse.parse(pattern, flags & ~re.UNICODE if ascii_only else flags)
     items = list(tree)
@@ -110,6 +136,10 @@ def translate(pattern: str, flags: int = 0) -> Translated:
         return z3.Concat(*parts)
 
     def one(op, av):
+        if icase and op in (sre_c.LITERAL, sre_c.NOT_LITERAL, sre_c.IN, sre_c.CATEGORY):
+            # case-insensitive matching of one character: ask Python's own engine about every code point (simple and full case folding,
+            # e.g. 'S' also matches U+017F) instead of re-implementing its folding tables
+            return _single_char_set(tree.state, (op, av), flags)
         if op == sre_c.LITERAL:
             return z3.Re(_ch(av))
         if op == sre_c.NOT_LITERAL:
